@@ -1,0 +1,112 @@
+//go:build verif
+
+package stackitem
+
+// Contracts for the verif build tag (comment-only; see /verif/DESIGN.md).
+// C13: the numeric and boolean views of a stack item as the NeoVM specification defines them
+// (Integer: its value; Boolean: 0/1; ByteString of at most 32 bytes: its little-endian
+// two's-complement value, true iff some byte is non-zero; Null: false; every other kind is
+// true and has no integer view, so an instruction asking for one faults).
+
+//@ prop C13
+//@ import big math/big
+//@ import bigint github.com/nspcc-dev/neo-go/pkg/encoding/bigint
+//@ pkg-invariant errTooBigInteger != nil
+
+//@ spec in256(x int) bool = -big.two255() <= x && x < big.two255()
+
+// Type invariant of items held by the VM: pointer-kind items are non-nil pointers, an Integer is
+// within 256 bits (NewBigInteger is the only constructor and checks it), byte strings hold a
+// non-nil slice (every constructor call site passes one; assumption, see DESIGN.md).
+//@ spec wfItem(it Item) bool = it != nil && (is(it, *BigInteger) ==> it.(*BigInteger) != nil && in256((*big.Int)(it.(*BigInteger)).v)) && (is(it, *ByteArray) ==> it.(*ByteArray) != nil && *it.(*ByteArray) != nil) && (is(it, *Buffer) ==> it.(*Buffer) != nil) && (is(it, *Array) ==> it.(*Array) != nil) && (is(it, *Struct) ==> it.(*Struct) != nil) && (is(it, *Map) ==> it.(*Map) != nil) && (is(it, *Interop) ==> it.(*Interop) != nil) && (is(it, *Pointer) ==> it.(*Pointer) != nil)
+
+// ---- integer view
+//@ spec isInt(it Item) bool = is(it, *BigInteger) || is(it, Bool) || (is(it, *ByteArray) && len(*it.(*ByteArray)) <= 32)
+//@ spec intOf(it Item) int = ite(is(it, *BigInteger), (*big.Int)(it.(*BigInteger)).v, ite(is(it, Bool), ite(bool(it.(Bool)), 1, 0), bigint.le2c(*it.(*ByteArray))))
+
+//@ iface Item.TryInteger
+//@ assumed
+//@ pure
+//@ requires wfItem(recv)
+//@ ensures[ok] (result1 == nil) == isInt(recv)
+//@ ensures[val] result1 == nil ==> result0 != nil && result0.v == intOf(recv)
+//@ ensures[range] result1 == nil ==> in256(intOf(recv))
+
+// ---- boolean view
+//@ spec nz(b seq) bool = exists(k, 0, len(b), b[k] != 0)
+//@ spec isBool(it Item) bool = !(is(it, *ByteArray) && len(*it.(*ByteArray)) > 32)
+//@ spec boolOf(it Item) bool = ite(is(it, Bool), bool(it.(Bool)), ite(is(it, *BigInteger), (*big.Int)(it.(*BigInteger)).v != 0, ite(is(it, *ByteArray), nz(*it.(*ByteArray)), !is(it, Null))))
+
+//@ iface Item.TryBool
+//@ assumed
+//@ pure
+//@ requires wfItem(recv)
+//@ ensures[ok] (result1 == nil) == isBool(recv)
+//@ ensures[val] result1 == nil ==> result0 == boolOf(recv)
+
+// ---- the implementations, each checked against the interface contracts above
+//@ func (*BigInteger).Big
+//@ inline
+//@ func mkInvConversion
+//@ assumed
+//@ pure
+//@ ensures result != nil
+
+//@ func (*BigInteger).TryInteger
+//@ implements Item.TryInteger
+//@ ensures result1 == nil && result0 == (*big.Int)(i)
+//@ func (*BigInteger).TryBool
+//@ implements Item.TryBool
+
+//@ func (Bool).TryInteger
+//@ implements Item.TryInteger
+//@ func (Bool).TryBool
+//@ implements Item.TryBool
+
+//@ func (ByteArray).TryInteger
+//@ requires i != nil
+//@ ensures (result1 == nil) == (len(i) <= 32)
+//@ ensures result1 == nil ==> result0 != nil && result0.v == bigint.le2c(i) && in256(bigint.le2c(i))
+//@ func (*ByteArray).TryBool
+//@ implements Item.TryBool
+//@ loop 0 invariant forall(k, 0, $i, (*i)[k] == 0)
+
+//@ func (*Buffer).TryInteger
+//@ implements Item.TryInteger
+//@ func (*Buffer).TryBool
+//@ implements Item.TryBool
+//@ func (Null).TryInteger
+//@ implements Item.TryInteger
+//@ func (Null).TryBool
+//@ implements Item.TryBool
+//@ func (*Array).TryInteger
+//@ implements Item.TryInteger
+//@ func (*Array).TryBool
+//@ implements Item.TryBool
+//@ func (*Struct).TryInteger
+//@ implements Item.TryInteger
+//@ func (*Struct).TryBool
+//@ implements Item.TryBool
+//@ func (*Map).TryInteger
+//@ implements Item.TryInteger
+//@ func (*Map).TryBool
+//@ implements Item.TryBool
+//@ func (*Interop).TryInteger
+//@ implements Item.TryInteger
+//@ func (*Interop).TryBool
+//@ implements Item.TryBool
+//@ func (*Pointer).TryInteger
+//@ implements Item.TryInteger
+//@ func (*Pointer).TryBool
+//@ implements Item.TryBool
+
+// ---- the 256-bit range check every integer result goes through
+//@ func CheckIntegerSize
+//@ requires value != nil
+//@ ensures (result == nil) == in256(value.v)
+
+//@ func NewBigInteger
+//@ opt uncovered 1
+//@ requires value != nil
+//@ requires[nopanic] in256(value.v)
+//@ ensures result == (*BigInteger)(value)
